@@ -42,10 +42,25 @@ let rec expr () =
                | _ -> raise (Bad t))
      | 's' -> EConst (VStr (unhex rest))
      | _ -> raise (Bad t))
-let phrase () =
+(* an operand: a pure expression, or "C <kind> <np> phrase* elt [elt2]" = a nested comprehension *)
+let rec operand () =
+  match !toks with
+  | "C" :: _ ->
+    ignore (next ());
+    let kind = next () in
+    let np = int_of_string (next ()) in
+    let ps = List.init np (fun _ -> phrase ()) in
+    (match kind with
+     | "list" -> let e = operand () in comp_op (CList e) (VInt Z0) ps
+     | "map" -> let a = operand () in let b = operand () in comp_op (CMap (a, b)) (VInt Z0) ps
+     | "sel1" -> let e = operand () in comp_op (CSelect (e, false)) (VInt Z0) ps
+     | "exists" -> comp_op CExists (VInt Z0) ps
+     | t -> raise (Bad t))
+  | _ -> pure_op (expr ())
+and phrase () =
   let k = next () in let v = next () in
-  let x = expr () in
-  let c = (match next () with "N" -> None | "C" -> Some (expr ()) | t -> raise (Bad t)) in
+  let x = operand () in
+  let c = (match next () with "N" -> None | "C" -> Some (operand ()) | t -> raise (Bad t)) in
   { ph_key = (if k = "-" then None else Some (NUser (n_of_int (int_of_string k))));
     ph_val = (if v = "_" then None else Some (NUser (n_of_int (int_of_string v))));
     ph_x = x; ph_cond = c }
@@ -87,13 +102,13 @@ let () =
            let np = int_of_string (next ()) in
            let ps = List.init np (fun _ -> phrase ()) in
            (match kind with
-            | "list" -> let e = expr () in run_compr (CList e) (VInt Z0) ps
-            | "map" -> let a = expr () in let b = expr () in run_compr (CMap (a, b)) (VInt Z0) ps
-            | "sel1" -> let e = expr () in run_compr (CSelect (e, false)) (VInt Z0) ps
-            | "sel2" -> let e = expr () in run_compr (CSelect (e, true)) (VInt Z0) ps
+            | "list" -> let e = operand () in run_compr (CList e) (VInt Z0) ps
+            | "map" -> let a = operand () in let b = operand () in run_compr (CMap (a, b)) (VInt Z0) ps
+            | "sel1" -> let e = operand () in run_compr (CSelect (e, false)) (VInt Z0) ps
+            | "sel2" -> let e = operand () in run_compr (CSelect (e, true)) (VInt Z0) ps
             | _ -> run_compr CExists (VInt Z0) ps)
          | "for" ->
-           let p = phrase () in let b = expr () in
+           let p = phrase () in let b = (operand ()).op_e in
            (let s = lower_forphrase p (SExpr (EProbe (n_of_int 100, b))) in
               (match exec err_text fuel s [] [] with
                | ((RVal _, _), tr) -> Printf.sprintf "v=-\tt=%s" (show_trace tr)
@@ -105,7 +120,7 @@ let () =
            let s = (if kind = "send" then
                       let n = int_of_string (next ()) in
                       lower_send a (List.init n (fun _ -> expr ()))
-                    else lower_send_all a (expr ())) in
+                    else lower_send_all a (operand ()).op_e) in
            (match exec err_text fuel s en [] with
             | ((RVal _, en'), tr) ->
               (match lookup en' a with
